@@ -67,6 +67,8 @@ var pipesimAssume = []string{
 	"statement-level preemption approximates, but does not equal, the Go memory model",
 }
 
+var rawMode bool
+
 var props = map[string]propCfg{
 	"C05": {Engine: "pipesim", Level: "exploration", QuickRandom: 150000, QuickWall: 20, ThoroughRand: 4000000, ThoroughWall: 420,
 		Rule: "one case = one simulated run (plan + schedule tape). Enumerated: every sequential stage x capacity {0,1,2,5} x input length 0..3 (thorough 0..5) x function variants x 6 base schedules; then seeded random plans (stage, length, capacity, Take n, function, paces, policy, preemption). " + distinctRule},
@@ -123,6 +125,7 @@ func main() {
 	wall := fl.Int("wall", 0, "override the soft wall limit (s) of the random part")
 	keep := fl.Bool("keep", false, "keep the scratch directory")
 	noEvidence := fl.Bool("no-evidence", false, "do not write the evidence file")
+	raw := fl.Bool("uninstrumented", false, "cross-check: stage the library WITHOUT instrumentation (library goroutines run under the Go scheduler inside the bubble; only environment tasks are scheduled; not replayable; never writes evidence)")
 	fl.Parse(os.Args[2:])
 	if prop == "selftest" {
 		selftest(fl.Args())
@@ -143,6 +146,10 @@ func main() {
 	fmt.Printf("check %s tier=%s VERIF_SEED=%d\n", prop, *tier, seed)
 	start := time.Now()
 
+	rawMode = *raw
+	if rawMode {
+		*noEvidence = true
+	}
 	st := stage(cfg.Engine, *keep)
 	defer st.cleanup()
 
@@ -268,16 +275,18 @@ func stage(engine string, keep bool) *staged {
 			}
 			return nil
 		})
-		res, err := instrument.Run([]instrument.Pkg{
-			{ImportPath: pipePath, Dir: filepath.Join(dir, "pipe")},
-			{ImportPath: pipePath + "/fork", Dir: filepath.Join(dir, "pipe", "fork")},
-		}, resolve)
-		if err != nil {
-			st.cleanup()
-			die(2, "INFRA: instrumentation failed (this is not a verdict): %v", err)
+		if !rawMode {
+			res, err := instrument.Run([]instrument.Pkg{
+				{ImportPath: pipePath, Dir: filepath.Join(dir, "pipe")},
+				{ImportPath: pipePath + "/fork", Dir: filepath.Join(dir, "pipe", "fork")},
+			}, resolve)
+			if err != nil {
+				st.cleanup()
+				die(2, "INFRA: instrumentation failed (this is not a verdict): %v", err)
+			}
+			st.sites = res.Sites
+			st.instrCounts = res.Counts
 		}
-		st.sites = res.Sites
-		st.instrCounts = res.Counts
 		mod += "replace github.com/fogfish/golem/pipe/v2 => " + filepath.Join(dir, "pipe") + "\n"
 		mod += "replace github.com/fogfish/golem/pure => " + filepath.Join(dir, "pure") + "\n"
 		mod += "replace github.com/fogfish/golem/duct => " + filepath.Join(repo, "duct") + "\n"
@@ -364,7 +373,7 @@ func fanout(st *staged, prop string, seed uint64, thorough bool, workers, random
 		wg.Add(1)
 		go func(w int) {
 			defer wg.Done()
-			job := driver.WorkerIn{Prop: prop, Mode: "run", Seed: seed, Thorough: thorough, Worker: w, Workers: workers, Random: random,
+			job := driver.WorkerIn{Prop: prop, Mode: "run", Seed: seed, Thorough: thorough, Worker: w, Workers: workers, Random: random, RawLib: rawMode,
 				WallLimit: wall, ReplayDir: filepath.Join(st.dir, "replays"), Out: filepath.Join(st.dir, fmt.Sprintf("out-%d.json", w))}
 			wo, outp, code := runWorker(st, job)
 			mu.Lock()
@@ -559,6 +568,11 @@ func report(st *staged, prop string, cfg propCfg, tier string, seed uint64, outs
 		if k, ok := knownBySig[sig]; ok {
 			fmt.Printf("KNOWN-FINDING: property=%s %s (%d runs; %s)\n", prop, k.What, fa.count, sig)
 			knownMatched = append(knownMatched, sig)
+			continue
+		}
+		if rawMode {
+			fmt.Printf("cross-check disagreement (uninstrumented library, Go scheduler): %s %s [%s] x%d: %s\n  %s\n", f.Clause, f.Stage, f.Class, fa.count, f.Msg, f.Replay)
+			exit = 3
 			continue
 		}
 		// confirm by replaying the minimised file in a fresh process
